@@ -7,7 +7,11 @@ CHECK = {
     "technique": "stateless model checking of the real step scheduler (machine-instrumented at check time) under a cooperative scheduler with virtual time: all non-preemptive schedules of every program of a finite family, preemption-bounded schedules of a sharp list",
     "rule": "",
     "harnesses": [H("e1", sub="C10", **_E1),
-                  H("agentseq", sub="C10agent", shards={"quick": "ncpu", "thorough": "ncpu"})],
+                  H("agentseq", sub="C10agent", shards={"quick": "ncpu", "thorough": "ncpu"}),
+                  # "the retry uses the parameter values of the recorded run": the parameter family of go/c11 (real binary: start, then retry), retry-side verdicts only
+                  H("c11", sub="C10params", shards={"quick": "ncpu", "thorough": "ncpu"})],
+    "needs_binary": True,
+    "today_dependent": True,
     "assumptions": [],
 }
 TEXT = {"engine": "E1-coop", "design_ref": "DESIGN.md §3.1, §5 C10",
